@@ -296,7 +296,7 @@ def main(tier):
             'compared with watchpoint_list() and the model; plus the exhaustive pure leg; distinct = distinct (program, op prefix)')
     V = Verdict('C14', tier, rule)
     V.minima = {'register_images_decoded': 300, 'refusals': 20, 'multi_thread_images': 50, 'removes': 20} if tier == 'quick' else \
-        {'register_images_decoded': 15000, 'refusals': 600, 'multi_thread_images': 3000, 'removes': 800, 'restarts': 15}
+        {'register_images_decoded': 8000, 'refusals': 400, 'multi_thread_images': 3000, 'removes': 500, 'restarts': 15}
     V.assumptions = ['SDM vol.3 17.2.4 layout of DR7', 'hardware data breakpoints are programmed but never fire in this VM: the trigger clause is inconclusive']
     # ---- pure leg
     r = subprocess.run([PUREMON, 'dr7'], stdout=subprocess.PIPE, text=True, timeout=600)
@@ -319,7 +319,7 @@ def main(tier):
     except Exception as e:
         V.inconc('hwprobe-failed', str(e))
     shapes = [dict(n=2, waves=3, k=6), dict(n=3, waves=2, k=8), dict(n=1, waves=1, k=30), dict(n=4, waves=3, k=4)]
-    n = 24 if tier == 'quick' else 250
+    n = 24 if tier == 'quick' else 120
     specs = [(i, shapes[i % len(shapes)], tier) for i in range(n)]
     common.parallel_map(_prep, sorted({(s[0], tuple(sorted(s[1].items()))) for s in specs}, key=str))
     for res in common.safe_map(run_case, specs, procs=8):
